@@ -32,8 +32,10 @@ where
 {
     set_budget(1);
     let Ok(bump) = Bump::<VA, St>::try_new() else { return };
+    // never run Drop for Bump on early-return paths (it walks the chunk list and calls the base allocator: pure cost)
+    let mut bump = core::mem::ManuallyDrop::new(bump);
     set_budget(0);
-    let Ok(mut v) = BumpVec::<u8, _>::try_with_capacity_in(CAP0, &bump) else { return };
+    let Ok(mut v) = BumpVec::<u8, _>::try_with_capacity_in(CAP0, &*bump) else { return };
     assert!(v.capacity() >= CAP0, "C08: capacity smaller than with_capacity promised");
     let vals: [u8; 4] = kani::any();
     let p0 = v.as_ptr() as usize;
@@ -76,7 +78,6 @@ where
         }
     }
     core::mem::forget(v);
-    core::mem::forget(bump);
     kani::cover!(true, "END: harness ran to completion");
 }
 
@@ -87,8 +88,10 @@ where
 {
     set_budget(1);
     let Ok(bump) = Bump::<VA, St>::try_new() else { return };
+    // never run Drop for Bump on early-return paths (it walks the chunk list and calls the base allocator: pure cost)
+    let mut bump = core::mem::ManuallyDrop::new(bump);
     set_budget(0);
-    let Ok(mut v) = BumpVec::<D, _>::try_with_capacity_in(2, &bump) else { return };
+    let Ok(mut v) = BumpVec::<D, _>::try_with_capacity_in(2, &*bump) else { return };
     kani::assume(v.capacity() == 2);
     let vals: [u8; 3] = kani::any();
     assert!(v.try_push(D { id: 0, val: vals[0] }).is_ok(), "push within capacity");
@@ -118,7 +121,6 @@ where
     unsafe {
         assert!(DROPS[0] == 1 && DROPS[1] == 1 && DROPS[2] == 1, "C06: elements not dropped exactly once after the vector was dropped");
     }
-    core::mem::forget(bump);
     kani::cover!(true, "END: harness ran to completion");
 }
 
@@ -129,8 +131,10 @@ where
 {
     set_budget(1);
     let Ok(bump) = Bump::<VA, St>::try_new() else { return };
+    // never run Drop for Bump on early-return paths (it walks the chunk list and calls the base allocator: pure cost)
+    let mut bump = core::mem::ManuallyDrop::new(bump);
     set_budget(0);
-    let Ok(mut v) = BumpVec::<u8, _>::try_with_capacity_in(6, &bump) else { return };
+    let Ok(mut v) = BumpVec::<u8, _>::try_with_capacity_in(6, &*bump) else { return };
     kani::assume(v.capacity() == 6);
     let vals: [u8; 4] = kani::any();
     let mut k = 0;
@@ -172,9 +176,9 @@ where
             let _ = other.try_push(0xA3);
         }
         1 => other.shrink_to_fit(),
-        2 => drop(core::mem::replace(&mut other, BumpVec::new_in(&bump))),
+        2 => drop(core::mem::replace(&mut other, BumpVec::new_in(&*bump))),
         _ => {
-            let b = core::mem::replace(&mut other, BumpVec::new_in(&bump)).into_boxed_slice();
+            let b = core::mem::replace(&mut other, BumpVec::new_in(&*bump)).into_boxed_slice();
             core::mem::forget(b);
         }
     }
@@ -192,7 +196,6 @@ where
     }
     core::mem::forget(other);
     core::mem::forget(v);
-    core::mem::forget(bump);
     kani::cover!(true, "END: harness ran to completion");
 }
 
@@ -203,8 +206,10 @@ where
 fn vec_reserve_any() {
     set_budget(1);
     let Ok(bump) = Bump::<VA, S<1, true>>::try_new() else { return };
+    // never run Drop for Bump on early-return paths (it walks the chunk list and calls the base allocator: pure cost)
+    let mut bump = core::mem::ManuallyDrop::new(bump);
     set_budget(0);
-    let Ok(mut v) = BumpVec::<u16, _>::try_with_capacity_in(1, &bump) else { return };
+    let Ok(mut v) = BumpVec::<u16, _>::try_with_capacity_in(1, &*bump) else { return };
     assert!(v.try_push(7).is_ok(), "push");
     let additional: usize = kani::any();
     let exact: bool = kani::any();
@@ -221,7 +226,6 @@ fn vec_reserve_any() {
     }
     assert!(v.len() == 1 && v[0] == 7, "C07/C08: reserve changed the contents");
     core::mem::forget(v);
-    core::mem::forget(bump);
     kani::cover!(true, "END: harness ran to completion");
 }
 
@@ -233,10 +237,12 @@ where
 {
     set_budget(1);
     let Ok(bump) = Bump::<VA, St>::try_new() else { return };
+    // never run Drop for Bump on early-return paths (it walks the chunk list and calls the base allocator: pure cost)
+    let mut bump = core::mem::ManuallyDrop::new(bump);
     set_budget(0);
     let cap0: usize = kani::any();
     kani::assume(cap0 >= 1 && cap0 <= 12);
-    let Ok(mut v) = BumpVec::<u8, _>::try_with_capacity_in(cap0, &bump) else { return };
+    let Ok(mut v) = BumpVec::<u8, _>::try_with_capacity_in(cap0, &*bump) else { return };
     let vals: [u8; 3] = kani::any();
     let n: usize = kani::any();
     kani::assume(n <= 3 && n <= v.capacity());
@@ -285,7 +291,6 @@ where
         let q = q.into_raw().as_ptr() as usize;
         assert!(disjoint(q, 1, p, n), "C01: allocation after shrinking overlaps the vector's elements");
     }
-    core::mem::forget(bump);
     kani::cover!(true, "END: harness ran to completion");
 }
 
